@@ -118,7 +118,7 @@ func mutate(r *mon.Rand, b []byte) []byte {
 		case 6: // ntrks tampering
 			if len(b) >= 12 {
 				v := []uint16{0, 1, 2, 3, binary.BigEndian.Uint16(b[10:12]) + 1, binary.BigEndian.Uint16(b[10:12]) - 1}[r.Intn(6)]
-				if r.P(1, 30) {
+				if r.P(1, 400) { // rare: each such input legitimately costs megabytes (pre-created track slice)
 					v = []uint16{65535, 32768, 32767}[r.Intn(3)]
 				}
 				binary.BigEndian.PutUint16(b[10:12], v)
@@ -393,7 +393,7 @@ func runC05(c *mon.Ctx) {
 		b := r.Bytes(n)
 		if i%2 == 0 {
 			nt := uint16(r.Pick(0, 1, 1, 1, 2, 3))
-			if r.P(1, 100) {
+			if r.P(1, 1000) { // rare: each such input legitimately costs megabytes
 				nt = uint16(r.Pick(65535, 32768, 300))
 			}
 			h := hdr(uint16(r.Intn(3)), nt, gen.Division(r))
